@@ -5,7 +5,7 @@ from concurrent.futures import ThreadPoolExecutor
 
 VERIF = os.path.dirname(os.path.dirname(os.path.abspath(__file__)))
 COQ = os.path.join(VERIF, "coq")
-REPO = "/repo"
+REPO = os.environ.get("VERIF_REPO", "/repo")
 WORK = os.path.join(VERIF, "work")
 COQFLAGS = ["-w", "-notation-overridden,-deprecated-hint-without-locality,-deprecated-instance-without-locality"]
 ALLOWED_AXIOMS = set()   # none needed so far; stdlib axioms would be listed here and in the evidence
